@@ -16,12 +16,14 @@ struct Shape {
     em: Emitted,
     fdts: Vec<FdtView>,
     views: Vec<ObjView>,
+    /// the FDT copy may arrive after the first object packets (before the close-object packet)
+    late_fdt: bool,
 }
 
 fn make_shape(name: String, em: Emitted) -> Shape {
     let fdts = fdt_views(&em);
     let views = (0..em.objs.len()).filter_map(|i| obj_view(&em, i)).collect();
-    Shape { cfg_name: name, em, fdts, views }
+    Shape { cfg_name: name, em, fdts, views, late_fdt: false }
 }
 
 /// run one delivery and judge; returns (was_decodable, completed)
@@ -50,7 +52,7 @@ fn deliver(sh: &Shape, delivered: &[usize], tag: &str, out: &mut Vec<Violation>)
     };
     for ov in &sh.views {
         let i = em.obj_index_of(ov.toi).unwrap();
-        if !decodable(em, &sh.fdts, ov, delivered) {
+        if !decodable_ext(em, &sh.fdts, ov, delivered, sh.late_fdt) {
             continue;
         }
         n_dec += 1;
@@ -277,6 +279,99 @@ fn main() {
             }
             cr.sample = Some(json!({"session": sh.em.json(), "deliveries": n_runs, "decodable": n_dec}));
             limit(&mut cr.violations, 4);
+            cr
+        }));
+        // ---- the first FDT copy is lost: a carousel copy arrives in the middle of the object (paced sender, one packet
+        //      per 5 ms poll, FDT repetition every 25-40 ms), before the packet carrying the close-object flag
+        let n_l = ctx.tier.pick(2500usize, 120_000);
+        gens.push(Gen::new("late_fdt_copy", n_l, move |ctx, i| {
+            let mut rng = Rng::keyed(ctx.seed, "C02l", 0, i as u64);
+            let mut cr = CaseResult::default();
+            let fec = *rng.pick(&ALL_FEC);
+            let b = if fec == Fec::Raptor { rng.range(4, 6) } else { rng.range(2, 4) } as u32;
+            let mut oti = OtiSpec::new(fec, 16, b, if fec == Fec::NoCode { 0 } else { rng.range(1, 2) as u32 });
+            oti.al = 4;
+            oti.inband_fti = rng.chance(2, 3);
+            let nblocks = rng.range(1, 4);
+            let t = if fec == Fec::Raptor { b as u64 * nblocks } else { rng.range(nblocks.max(2), b as u64 * nblocks) };
+            let len = if fec == Fec::Raptor { t * 16 } else { (t - 1) * 16 + rng.range(1, 16) } as usize;
+            let mut spec = SenderSpec::new(OtiSpec::new(Fec::NoCode, 4096, 8, 0));
+            spec.full_fdt = true;
+            spec.interleave = rng.range(1, 3) as u8;
+            spec.fdt_carousel = CarouselSpec::DelayMs(*rng.pick(&[25u64, 40]));
+            let mut o = ObjSpec::new(rng.bytes(len), "file:///late/o.bin");
+            o.oti = Some(oti.clone());
+            o.max_transfer_count = rng.range(1, 2) as u32;
+            let script = vec![(When::Start, Op::Add(0)), (When::Start, Op::Publish)];
+            let mut opts = ScriptOpts::every(5, 800);
+            opts.drain = false;
+            let run = match util::guarded(|| run_script(&spec, &[o], &script, &opts)) {
+                Ok(Ok(r)) => r,
+                _ => return cr,
+            };
+            if run.tois[0].is_none() || run.stream.len() > 400 {
+                return cr;
+            }
+            let mut sh = make_shape(format!("late{}", i), run.into_emitted());
+            sh.late_fdt = true;
+            let ov = match sh.views.first() {
+                Some(v) => v,
+                None => return cr,
+            };
+            let b_idx = ov.idx.iter().copied().find(|k| sh.em.stream[*k].dec.lct.b).unwrap_or(sh.em.stream.len());
+            let first_obj = ov.idx.first().copied().unwrap_or(0);
+            // FDT copies (single-packet instances) that arrive after the first object packet and before the B packet
+            let mid_copies: Vec<usize> = sh.em.stream.iter().enumerate().filter(|(k, p)| p.toi() == 0 && *k > first_obj && *k < b_idx).map(|(k, _)| k).collect();
+            if mid_copies.is_empty() {
+                return cr;
+            }
+            let (mut n_dec, mut n_runs) = (0, 0);
+            for round in 0..6 {
+                let mut keep: std::collections::BTreeSet<usize> = Default::default();
+                let mut per: std::collections::BTreeMap<u32, Vec<usize>> = Default::default();
+                for k in &ov.idx {
+                    per.entry(sh.em.stream[*k].dec.sbn).or_default().push(*k);
+                }
+                for (sbn, mut ks) in per {
+                    let k = ov.part.k(sbn as u128) as usize;
+                    if ov.fec.is_rs() {
+                        let target = match round % 3 { 0 => k, 1 => k + 1, _ => ks.len() };
+                        rng.shuffle(&mut ks);
+                        for x in ks.iter().take(target) {
+                            keep.insert(*x);
+                        }
+                    } else {
+                        let mut seen = std::collections::HashSet::new();
+                        for x in &ks {
+                            let esi = sh.em.stream[*x].dec.esi;
+                            if ((esi as usize) < k && seen.insert(esi)) || rng.chance(1, 2) {
+                                keep.insert(*x);
+                            }
+                        }
+                    }
+                }
+                // every FDT copy up to the first object packet is lost; one chosen mid-object copy survives, the others at random
+                let chosen = mid_copies[rng.below(mid_copies.len() as u64) as usize];
+                for (k, p) in sh.em.stream.iter().enumerate() {
+                    if p.toi() == 0 && k > first_obj && (k == chosen || rng.chance(1, 3)) {
+                        keep.insert(k);
+                    }
+                }
+                let delivered: Vec<usize> = keep.into_iter().collect();
+                let (d, _) = deliver(&sh, &delivered, "late_fdt", &mut cr.violations);
+                n_dec += d;
+                n_runs += 1;
+            }
+            cr.count("deliveries", n_runs);
+            cr.count("decodable_deliveries", n_dec);
+            cr.count("late_fdt_deliveries", n_dec);
+            if n_dec > 0 {
+                cr.shape = Some(util::fnv(&format!("late|{}", obj_shape(&sh.em.objs[0], sh.em.oti_of(0), sh.em.transfer_len[0].unwrap_or(0)))));
+            }
+            if i % 211 == 0 {
+                cr.sample = Some(json!({"session": sh.em.json(), "fdt_copies_inside_the_object": mid_copies.len(), "deliveries": n_runs, "decodable": n_dec}));
+            }
+            limit(&mut cr.violations, 3);
             cr
         }));
         gens
